@@ -74,29 +74,58 @@ func c14Duration(c *Ctx) {
 		okBase = v == ssa.Value(s.Params[0])
 	}
 	c.check(okBase, "C14.duration.cuts", s, "base text is time.Duration(d).String()", base, "the text is time.Duration's, possibly shortened")
-	cutOf := func(ret *ssa.Return) (int64, bool) {
+	// cutExpr: the returned text is base (nil, true) or base[:len(base)-y] (y, true)
+	cutExpr := func(ret *ssa.Return) (ssa.Value, bool) {
 		v := ret.Results[0]
 		if base != nil && v == ssa.Value(base) {
-			return 0, true
+			return nil, true
 		}
 		sl, ok := v.(*ssa.Slice)
 		if !ok || base == nil || sl.X != ssa.Value(base) || sl.Low != nil || sl.High == nil {
-			return 0, false
+			return nil, false
 		}
 		b, ok := sl.High.(*ssa.BinOp)
 		if !ok || b.Op != token.SUB {
-			return 0, false
+			return nil, false
 		}
 		if lc, ok := b.X.(*ssa.Call); !ok || core.CalleeName(&lc.Call) != "builtin.len" || lc.Call.Args[0] != ssa.Value(base) {
+			return nil, false
+		}
+		return b.Y, true
+	}
+	// cutOf evaluates the number of bytes cut with the given valuation of SSA values
+	cutOf := func(ret *ssa.Return, exact func(ssa.Value) (int64, bool)) (int64, bool) {
+		y, ok := cutExpr(ret)
+		if !ok {
 			return 0, false
 		}
-		k, isK := core.ConstInt(b.Y)
-		return k, isK
+		if y == nil {
+			return 0, true
+		}
+		return exact(y)
 	}
+	fs := core.Facts(s)
 	for _, ret := range core.Returns(s) {
-		k, ok := cutOf(ret)
-		c.check(ok && (k == 0 || k == int64(len("0s")) || k == int64(len("0m0s"))), "C14.duration.cuts", s, sprintf("returns the base text minus a suffix of %d bytes", k), ret,
-			"only the redundant trailing units \"0s\" (2 bytes) and \"0m0s\" (4 bytes) may be removed")
+		y, ok := cutExpr(ret)
+		var ks []int64
+		if ok && y == nil {
+			ks = []int64{0}
+		} else if ok {
+			for _, lf := range fs.Leaves(y, ret) {
+				k, isK := core.ConstInt(lf.V)
+				if !isK {
+					ok = false
+				}
+				ks = append(ks, k)
+			}
+		}
+		for _, k := range ks {
+			c.check(ok && (k == 0 || k == int64(len("0s")) || k == int64(len("0m0s"))), "C14.duration.cuts", s, sprintf("returns the base text minus a suffix of %d bytes", k), ret,
+				"only the redundant trailing units \"0s\" (2 bytes) and \"0m0s\" (4 bytes) may be removed")
+		}
+		if !ok {
+			c.check(false, "C14.duration.cuts", s, "returns the base text or a prefix base[:len(base)-k] of it", ret, "only trailing units may be removed")
+		}
 	}
 	// R3: evaluate the guards on the congruence abstraction of the second count
 	c.L.Floor("C14.duration.guards", 1)
@@ -141,7 +170,7 @@ type cgVal struct {
 
 // durationGuardCheck walks String's CFG for every class of the second count
 // and compares the chosen cut with the specification.
-func durationGuardCheck(f *ssa.Function, cutOf func(*ssa.Return) (int64, bool)) (bad string, classes int, undecided string) {
+func durationGuardCheck(f *ssa.Function, cutOf func(*ssa.Return, func(ssa.Value) (int64, bool)) (int64, bool)) (bad string, classes int, undecided string) {
 	const second = int64(1000000000)
 	for _, sign := range []int64{-1, 0, 1} {
 		for r := int64(0); r < 3600; r++ {
@@ -287,7 +316,7 @@ func durationGuardCheck(f *ssa.Function, cutOf func(*ssa.Return) (int64, bool)) 
 							blk = blk.Succs[0]
 							continue walk
 						case *ssa.Return:
-							cut, ok := cutOf(x)
+							cut, ok := cutOf(x, func(v ssa.Value) (int64, bool) { return rep(get(v)) })
 							if !ok {
 								return "", classes, "unrecognised return value"
 							}
